@@ -71,6 +71,8 @@ def classify(op, expected, got):
         return "raises " + got[1]
     if k == "getmany":
         return "bulk look-up answers differ from the individual look-ups"
+    if k == "list_mems_limit":
+        return "a listing with a limit does not return min(limit, live) live entries"
     if k in ("list_fns", "list_mems"):
         return "lists entries that are not live" if len(got) > len(expected) else (
             "does not list a live entry" if len(got) < len(expected) else "lists wrong entries")
